@@ -170,7 +170,7 @@ static void flatten_copy() {
 }
 HARNESS h_flatten_copy() { flatten_copy<6, 24>(); }
 HARNESS h_flatten_copy_mid() { flatten_copy<8, 32>(); }
-HARNESS h_flatten_copy_big() { flatten_copy<16, 64>(); }
+HARNESS h_flatten_copy_big() { flatten_copy<12, 40>(); }
 
 // copy_flattened_data from an arbitrary section table (offsets, sizes unconstrained: overlapping, huge, without offset):
 // never writes outside the destination, refuses iff some buffer does not fit.
